@@ -10,8 +10,8 @@ PLAN = {
                             'checked by exhaustive small-scope enumeration against brute-force maximum matching (bounded stand-in, the property\'s own '
                             'quantifier: all graphs up to 4x5). Their contract "valid maximum matching of the stated predicate" is what every caller is '
                             'verified against deductively (see C01/C04/C06/C07/C08 evidence).'),
-    'C06': dict(level='proof', engines=['forward', 'segnative', 'tasknative']),
-    'C07': dict(level='proof', engines=['tasknative']),
+    'C06': dict(level='proof', engines=['forward', 'segnative', 'tasknative', 'matchnative']),
+    'C07': dict(level='proof', engines=['tasknative', 'matchnative']),
     'C08': dict(level='proof', engines=['segnative', 'tasknative', 'multipitchnative']),
     'C09': dict(level='proof', engines=['chordnative', 'keynative']),
     'C10': dict(level='proof', engines=['chordre']),
@@ -23,10 +23,7 @@ PLAN = {
     'C17': dict(level='proof', engines=['hiernative']),
     'C18': dict(level='proof', engines=['sumlib', 'multipitchnative', 'matchnative']),
     'C19': dict(level='proof', engines=['sepstruct', 'bundles']),
-    'C20': dict(level='other', engines=['ionative'],
-                explanation='Bounded only: loaders are exercised on generated files against the written values (exact floats via repr, labels with internal '
-                            'whitespace, comments, delimiters, StringIO and paths, single-fault corruptions). The bit-identical float round trip, regular-'
-                            'expression splitting and unicode handling are facts about CPython / re, which no contract in reach expresses.'),
+    'C20': dict(level='proof', engines=['ionative']),
     'C15': dict(level='proof', engines=['frames'], assumptions=['A3', 'A4', 'A5', 'A6', 'A7']),
 }
 
